@@ -223,6 +223,35 @@ Section Deck.
     split; [intros E; injection E as ->; reflexivity|intros ->; reflexivity].
   Qed.
 
+  (* the same for the cards AS WRITTEN: [l] = the options of the cards the LIKE
+     chain of the cell visits (nearest first; [] for an explicit card), every
+     card of the deck has option text without a colon at either end, the options
+     are IMP keywords with a number, one-argument keywords (U RHO MAT LAT) and
+     inert words; [ess] = the IMP entries of the base card, of every card of the
+     chain, and finally of the card itself *)
+  Theorem like_written_zero_iff imp_cards cards lats cells skipped r key b opts l ess :
+    parse_cells RS P imp_cards cards lats = Ok (cells, skipped) ->
+    nth_error (dict_of Z.eqb cards) r = Some (key, (b, opts)) ->
+    chain_cards (S (List.length (dict_of Z.eqb cards))) (dict_of Z.eqb cards) b = Ok l ->
+    Forall (fun c => clean_opts (snd (snd c))) (dict_of Z.eqb cards) ->
+    Forall2 (fun o es => scan_imps P (option_tokens o) = Some es) (rev l ++ [opts]) ess ->
+    List.concat ess <> [] -> Forall (fun e => 0 <= snd e)%R (List.concat ess) ->
+    (In key skipped <->
+     forall p, In p (named (List.concat ess)) -> last_value p (List.concat ess) = Some 0%R).
+  Proof.
+    intros H Hn Hc Hd Hs Hne Hnn.
+    assert (lead_colon opts = false) as Ho.
+    { rewrite Forall_forall in Hd. exact (proj2 (Hd _ (nth_error_In _ _ Hn))). }
+    destruct (resolve_chain_tokens _ _ _ opts l Hc Hd Ho) as (mat & geom & o & Hr & _ & Ht).
+    apply (chain_zero_iff _ _ _ _ _ _ _ _ _ mat geom o (List.concat ess) H Hn Hr); [|exact Hne|exact Hnn].
+    rewrite Ht.
+    replace (flat_map option_tokens (rev l) ++ option_tokens opts)
+      with (List.concat (map option_tokens (rev l ++ [opts])))
+      by (rewrite map_app, concat_app, <- flat_map_concat_map; cbn; rewrite app_nil_r; reflexivity).
+    apply (scan_imps_sound RS P _ _ _ (le_n _)). apply scan_imps_concat.
+    clear - Hs. induction Hs as [|x y lx ly Hxy _ IH]; [constructor|]. cbn [map]. constructor; assumption.
+  Qed.
+
   (* importances on data cards: the cell at rank r (no IMP keyword on its card)
      is skipped iff the entry at rank r of every IMP card is zero *)
   Theorem data_card_zero_iff imp_cards cards lats cells skipped first others r key mat geom opts :
@@ -258,6 +287,31 @@ Section Deck.
     split.
     - intros Hv. injection Hv as ->. destruct (proj1 Hz eq_refl) as [Ha Hb]. constructor; assumption.
     - intros Hall. inversion Hall as [|? ? Ha Hb]; subst. f_equal. apply Hz. split; assumption.
+  Qed.
+
+  (* a jumped entry (nJ) of a single IMP card: the code keeps None, which is not
+     == 0: the cell at that rank is NOT skipped (it is converted when it is in
+     no universe and has no FILL) *)
+  Theorem jumped_cell_kept name toks es vals cards lats cells skipped r key mat geom opts :
+    parse_cells RS P [(name, toks)] cards lats = Ok (cells, skipped) ->
+    reads P toks es -> meaning RS (pw P) es None = Some vals -> nth_error vals r = Some None ->
+    nth_error (dict_of Z.eqb cards) r = Some (key, (Explicit mat geom, opts)) ->
+    opt_imps RS P (option_tokens opts) [] ->
+    ~ In key skipped /\
+    exists c, In (key, c) cells /\ c_imp c = None /\
+              (c_u c = 0%Z -> c_fill c = FNone -> In key (conv_keys RS cells)).
+  Proof.
+    intros H Hr Hm Hj Hn Hopt.
+    destruct (cell_at _ _ _ _ _ _ _ _ _ _ H Hn) as (imps & c & Hi & Hw & Hin).
+    rewrite (importance_cards_single RS P name toks es vals Hr Hm) in Hi. injection Hi as <-.
+    pose proof (importance_of_cell RS P _ _ _ _ _ _ _ _ Hopt Hw) as Himp. cbn [imp_of_entries] in Himp.
+    rewrite Hj in Himp. injection Himp as Himp.
+    destruct (skipped_iff_zero RS P _ _ _ _ _ H) as (_ & Hnd & Hs).
+    assert (is_zero RS c = false) as Hz by (unfold is_zero; rewrite <- Himp; reflexivity).
+    split.
+    - rewrite (Hs key c Hin), Hz. discriminate.
+    - exists c. split; [exact Hin|]. split; [symmetry; exact Himp|]. intros Hu Hf.
+      apply (converted_iff RS cells key c Hnd Hin). auto.
   Qed.
 
   (* importances on the cell card (explicit card, whatever the data cards say) *)
